@@ -109,8 +109,15 @@ OP_KINDS = {
 
 
 class Units:
-    """chip values are logged as integers in units of 1/den"""
+    """chip values are logged as integers in units of 1/den.  den = 1: integer chips.  For runs with fractional chip types
+    (Fraction-valued amounts, for which the engine divides exactly) den is a number with many small factors, so that every
+    split of a pot over boards, hand types and winners is a whole number of units."""
     den = 1
+    FINE = 2 ** 4 * 3 ** 3 * 5 * 7          # 15120
+
+    @staticmethod
+    def make(v):
+        return Fraction(v, Units.den)
 
 
 def chip(v) -> int:
@@ -233,7 +240,7 @@ def project_cfg(st: State, *, werr: bool, rake: dict | None = None, extra: dict 
         'types': [TYPE_NAMES[t.__name__] for t in st.hand_types],
         'autos': [a.value for a in st.automations],
         'rake': rake or {'num': 0, 'den': 1, 'cap': -1, 'nfnd': False},
-        'werr': bool(werr), 'shufA': Shuffles.A, 'shufB': Shuffles.B, 'typesPerPot': True,
+        'werr': bool(werr), 'shufA': Shuffles.A, 'shufB': Shuffles.B, 'typesPerPot': True, 'exact': Units.den != 1,
     }
     if extra:
         cfg.update(extra)
